@@ -310,9 +310,15 @@ type zzLoggerBase = logging.Logger
 type zzLogger struct {
 	zzLoggerBase // nil
 	errors       int
+	msgs         []string
+	sts          []status.Status
 }
 
-func (l *zzLogger) ErrorStatus(msg string, st status.Status, keyValues ...any) { l.errors++ }
+func (l *zzLogger) ErrorStatus(msg string, st status.Status, keyValues ...any) {
+	l.errors++
+	l.msgs = append(l.msgs, msg)
+	l.sts = append(l.sts, st)
+}
 
 // ---- a connection built directly from its parts ------------------------------------------------------------
 
